@@ -47,7 +47,8 @@ func (c *Correctable) Watch(level int) <-chan struct{} {
 	ch := make(chan struct{})
 	c.mu.Lock()
 	defer c.mu.Unlock()
-	if level <= c.level {
+	if c.done || level <= c.level {
+		// no further level will be reached once the call is done
 		close(ch)
 		return ch
 	}
